@@ -42,23 +42,28 @@ pub fn install_panic_recorder() {
   }));
 }
 
-/// Child side: `handler` maps a case to its result.
+/// Child side: `handler` maps a case to its result. Arguments: <file> <lines to skip> <index of the first line of the file>.
 pub fn child_main(args: &[String], handler: fn(&J) -> J) -> ! {
   install_panic_recorder();
-  let text = std::fs::read_to_string(&args[0]).unwrap_or_default();
-  let cases: Vec<J> = text.lines().filter(|l| !l.trim().is_empty()).map(|l| serde_json::from_str(l).unwrap_or(J::Null)).collect();
-  let from: usize = args[1].parse().unwrap_or(0);
-  let to: usize = args[2].parse().unwrap_or(cases.len()).min(cases.len());
+  let skip: usize = args[1].parse().unwrap_or(0);
+  let base: usize = args[2].parse().unwrap_or(0);
+  let file = match std::fs::File::open(&args[0]) {
+    Ok(f) => f,
+    Err(_) => std::process::exit(3),
+  };
   let out = std::io::stdout();
-  for i in from..to {
-    let c = cases[i].clone();
+  for (k, line) in BufReader::new(file).lines().map_while(Result::ok).enumerate() {
+    if k < skip || line.trim().is_empty() {
+      continue;
+    }
+    let c: J = serde_json::from_str(&line).unwrap_or(J::Null);
     let h = std::thread::Builder::new().stack_size(8 << 20).spawn(move || handler(&c));
     let r = match h {
       Ok(h) => h.join().unwrap_or_else(|_| json!({"death": "panic outside the guarded calls"})),
       Err(_) => json!({"death": "cannot spawn"}),
     };
     let mut o = out.lock();
-    let _ = writeln!(o, "R {} {}", i, r);
+    let _ = writeln!(o, "R {} {}", base + k, r);
     let _ = o.flush();
   }
   std::process::exit(0)
@@ -69,7 +74,7 @@ fn worker(kind: &str, file: &std::path::Path, from: usize, to: usize, limit: Dur
   let mut next = from;
   while next < to {
     let mut child = match Command::new(&exe)
-      .args(["child", kind, &file.to_string_lossy(), &next.to_string(), &to.to_string()])
+      .args(["child", kind, &file.to_string_lossy(), &(next - from).to_string(), &from.to_string()])
       .stdout(Stdio::piped())
       .stderr(Stdio::null())
       .stdin(Stdio::null())
@@ -136,16 +141,14 @@ fn worker(kind: &str, file: &std::path::Path, from: usize, to: usize, limit: Dur
 
 /// Parent side. Returns one JSON per case (the child's answer, or {"death": how}).
 pub fn run_in_children(kind: &str, work_dir: &std::path::Path, cases: &[J], procs: usize, limit: Duration) -> Vec<J> {
+  run_in_children_with(kind, work_dir, cases.len(), procs, limit, &|i| cases[i].clone())
+}
+
+/// The same, with the cases produced on demand (each worker writes its own range to its own file,
+/// so that neither the parent nor a child ever holds all case texts).
+pub fn run_in_children_with(kind: &str, work_dir: &std::path::Path, n: usize, procs: usize, limit: Duration, make: &(dyn Fn(usize) -> J + Sync)) -> Vec<J> {
   let _ = std::fs::create_dir_all(work_dir);
-  let file = work_dir.join(format!("child_{}_{}.ndjson", kind, std::process::id()));
-  {
-    let mut f = std::io::BufWriter::new(std::fs::File::create(&file).unwrap_or_else(|e| crate::util::tool_error(&format!("cannot write cases: {}", e))));
-    for c in cases {
-      let _ = writeln!(f, "{}", c);
-    }
-  }
-  let results = Mutex::new(vec![J::Null; cases.len()]);
-  let n = cases.len();
+  let results = Mutex::new(vec![J::Null; n]);
   let procs = procs.max(1).min(n.max(1));
   let per = (n + procs - 1) / procs;
   std::thread::scope(|s| {
@@ -154,10 +157,19 @@ pub fn run_in_children(kind: &str, work_dir: &std::path::Path, cases: &[J], proc
       if from >= to {
         continue;
       }
-      let (file, results) = (&file, &results);
-      s.spawn(move || worker(kind, file, from, to, limit, results));
+      let results = &results;
+      let file = work_dir.join(format!("child_{}_{}_{}.ndjson", kind, std::process::id(), w));
+      s.spawn(move || {
+        {
+          let mut f = std::io::BufWriter::new(std::fs::File::create(&file).unwrap_or_else(|e| crate::util::tool_error(&format!("cannot write cases: {}", e))));
+          for i in from..to {
+            let _ = writeln!(f, "{}", make(i));
+          }
+        }
+        worker(kind, &file, from, to, limit, results);
+        let _ = std::fs::remove_file(&file);
+      });
     }
   });
-  let _ = std::fs::remove_file(&file);
   results.into_inner().unwrap_or_default()
 }
